@@ -712,7 +712,11 @@ class C11(Check):
         'core.OUTSIDE and are mirrored only, not judged; inside it entries, typed values, order, dedicated fields, '
         'types and tag values are compared exactly, except: the text of make_custom_string up to its whitespace / '
         'semicolon layout (same tags after re-reading), a dedicated field without its tag up to truthiness (missing / '
-        'None / {} / []), the type list of a region or table as a set, get_custom_tags rows on the six stated keys')
+        'None / {} / []), the type list of a region or table as a set, get_custom_tags rows on the six stated keys. '
+        'Histories (wave 4): every case is evaluated twice in one process with other custom strings / documents (same '
+        'tag names, attribute bodies, element ids, other requested tags) parsed in between — the second answer must '
+        'repeat the first; the parsed entries are re-read after make_custom_string / re-parsing and serialised a second '
+        'time, the scan\'s elements are re-read after get_custom_tags and get_custom_tags is asked twice')
     assumptions = [
         'CPython re implements \\b(\\w+) {(.*?)} as the hand-compiled scanner (finditer: leftmost match, continue '
         'after it); sampled by the correspondence on adversarial strings',
@@ -908,6 +912,44 @@ end Pagexml.C11.Gen
 
     # ---------------------------------------------------------------- implementation
     def impl(self, case: Case) -> Any:
+        """the case evaluated, then OTHER strings / documents with the same tag names, attribute bodies and element ids
+        parsed in this process (unobserved), then the case evaluated a second time: the second answer must repeat the
+        first (module-level or default-argument state must not leak between calls).  Only when it does not, the
+        outcome carries a `_hist` entry; the first answer is what the oracle judges and the model is compared with."""
+        first = self._impl_once(case)
+        try:
+            self._interlude(case)
+        except Exception:       # noqa — unobserved calls
+            pass
+        second = self._impl_once(case)
+        if core.jdump(core.canon(second)) != core.jdump(core.canon(first)):
+            first = dict(first, _hist={'second': second})
+        return first
+
+    @staticmethod
+    def _interlude(case: Case) -> None:
+        from pagexml.parser import parse_custom_attributes, parse_pagexml_file
+        from pagexml.helper.pagexml_helper import get_custom_tags
+        from pagexml.model.xml import make_custom_string
+        fixed = 'readingOrder {index:7;} structure {type:other;} person {offset:1; length:2;} a {offset:0; length:1; b:c;}'
+        call(lambda: make_custom_string(parse_custom_attributes(fixed)))
+        if case.kind in ('grammar', 'raw'):
+            s = render(case.input) if case.kind == 'grammar' else case.input['s']
+            call(lambda: make_custom_string(parse_custom_attributes(s + ' ' + fixed)))
+            call(lambda: parse_custom_attributes(fixed + ' ' + s))
+        else:
+            doc = case.input
+            other = {'regions': [{'id': 'r1', 'custom': {'raw': 'structure {type:other;} readingOrder {index:3;}'},
+                                  'lines': [{'id': 'l1', 'text': 'zyxwvutsrq', 'custom': {'raw': fixed},
+                                             'words': [{'id': 'w1', 'text': 'zy', 'custom': {'raw': fixed}}]}]}],
+                     'tables': [{'id': 't1', 'custom': {'raw': 'structure {type:other;}'},
+                                 'cells': [{'id': 'c1', 'custom': None, 'lines': []}]}]}
+            tags = sorted(set((doc.get('custom_tags') or []) + ['person', 'a', 'ab', 'b']))
+            call(lambda: get_custom_tags(parse_pagexml_file('c11.xml', pagexml_data=build_xml(other), custom_tags=tags)))
+            call(lambda: get_custom_tags(parse_pagexml_file('c11.xml', pagexml_data=build_xml(doc), custom_tags=tags)))
+            call(lambda: parse_pagexml_file('c11.xml', pagexml_data=build_xml(doc)))
+
+    def _impl_once(self, case: Case) -> Any:
         if case.kind in ('grammar', 'raw'):
             from pagexml.parser import parse_custom_attributes
             from pagexml.model.xml import make_custom_string
@@ -915,9 +957,18 @@ end Pagexml.C11.Gen
 
             def f():
                 es = parse_custom_attributes(s)
+                view = [canon_entry(e) for e in es]
                 made = call(lambda: make_custom_string(es))
                 again = call(lambda: [canon_entry(e) for e in parse_custom_attributes(made['ok'])]) if 'ok' in made else None
-                return {'entries': [canon_entry(e) for e in es], 'made': made, 'again': again}
+                out = {'entries': view, 'made': made, 'again': again}
+                # the parsed entries are USED objects now (serialised, their text parsed again): they must not have
+                # changed, serialising them a second time must give the same text
+                if [canon_entry(e) for e in es] != view:
+                    out['entries_after_use'] = [canon_entry(e) for e in es]
+                made2 = call(lambda: make_custom_string(es))
+                if made2 != made:
+                    out['made_again'] = made2
+                return out
             return call(f)
         if case.kind == 'xml':
             from pagexml.parser import parse_pagexml_file
@@ -935,7 +986,18 @@ end Pagexml.C11.Gen
                                 'custom': [canon_entry(e) for e in el.custom] if isinstance(el.custom, list) else None,
                                 'types': type_list(el.type)})
                 rows = call(lambda: [{k: canon_val(v) for k, v in r.items()} for r in get_custom_tags(scan)])
-                return {'elements': els, 'rows': rows}
+                out = {'elements': els, 'rows': rows}
+                # the scan is a USED object now: its elements read again, get_custom_tags asked again
+                els2 = [{'kind': kind, 'id': str(el.id), 'text': getattr(el, 'text', None),
+                         'md': canon_metadata(el.metadata or {}, kind == 'line'),
+                         'custom': [canon_entry(e) for e in el.custom] if isinstance(el.custom, list) else None,
+                         'types': type_list(el.type)} for kind, el in real_elements(scan)]
+                if els2 != els:
+                    out['elements_after_use'] = els2
+                rows2 = call(lambda: [{k: canon_val(v) for k, v in r.items()} for r in get_custom_tags(scan)])
+                if rows2 != rows:
+                    out['rows_again'] = rows2
+                return out
             return call(g)
         raise ValueError(case.kind)
 
@@ -1084,6 +1146,20 @@ end Pagexml.C11.Gen
         # case input (not from its tags), so that shrunk candidates are classified by what they are.
         if outside_quantifier(case.kind, case.input) is not None:
             return fs
+        # histories: the same question asked again after other strings / documents went through the parser, and the
+        # parsed objects read again after they were used
+        if '_hist' in out:
+            sec = out['_hist']['second']
+            bad(f'not-repeatable:{case.kind}', f'evaluated a second time in the same process (after other custom strings '
+                                               f'/ documents were parsed) the answer is {core.short(sec, 400)}, the first '
+                                               f'time {core.short({k: v for k, v in out.items() if k != "_hist"}, 400)}')
+        if 'ok' in out:
+            for k, what in (('entries_after_use', 'the parsed entries changed by serialising them / parsing their text again'),
+                            ('made_again', 'make_custom_string on the same entries a second time gives another text'),
+                            ('elements_after_use', 'the parsed elements (metadata, custom, types) changed by get_custom_tags'),
+                            ('rows_again', 'get_custom_tags on the same scan a second time gives other rows')):
+                if k in out['ok']:
+                    bad(f'used-object:{k}', f'{what}: {core.short(out["ok"][k], 400)}')
         if case.kind in ('grammar', 'raw'):
             # a raw string that gets here IS a custom string of the statement: judged like a generated one
             c = case.input if case.kind == 'grammar' else raw_as_grammar(case.input['s'])
